@@ -56,6 +56,15 @@ def huge_const(rng):
   return fn
 
 
+def tinyw_const(rng):
+  """tiny_const for the weights only: the bias keeps ordinary magnitudes, so its code under a 16-bit static config
+  (scale = input scale x weight scale, both tiny) is far beyond the int32 range (it is stored as int64)."""
+  base, tiny = grid_const(rng), tiny_const(rng)
+  def fn(si, t, role, shape):
+    return tiny(si, t, role, shape) if role == "w" else base(si, t, role, shape)
+  return fn
+
+
 def small_stats(scn):
   """pipeline.inject_stats divided by 8 (still dyadic): input scales around 1e-3."""
   def fn(q, model, info):
